@@ -6,10 +6,10 @@ W = "impl<C: ContentAddrStore, K: StdSer, V: StdSer> SmtMapping<C, K, V>"
 KEY = "h1(key.ser()).0@"
 UNIT = Unit(
     name="smtmap", uses="group_core_axioms, novasmt::axiom_tree_total",
-    prelude=["core.rs", "raw.rs"],
-    lemmas=[],
+    prelude=["core.rs", "raw.rs", "iter.rs"],
+    lemmas=["sums.rs", "iterlem.rs"],
     items=[
-        Raw("use std::marker::PhantomData;"),
+        Raw("use std::marker::PhantomData; use novasmt::FullProof;"),
         TypeItem(SM, "struct", "SmtMapping", subst=[("K: Serialize, V: Serialize + DeserializeOwned", "K: StdSer, V: StdSer"), ("_phantom_k:", "pub _phantom_k:"), ("_phantom_v:", "pub _phantom_v:")],
                  derive="#[verifier::reject_recursive_types(C)] #[verifier::reject_recursive_types(K)] #[verifier::reject_recursive_types(V)]"),
         Raw("""/// `<&[u8] as Default>::default()` (declared substitution in `delete`): the empty slice
@@ -23,6 +23,17 @@ pub open spec fn typed_get<V: StdSer>(raw: IMap<Seq<u8>, Seq<u8>>, k: Seq<u8>) -
                        note="tree invariant: every non-empty entry under a typed key decodes (`expect(\"SmtMapping saw invalid data\")` panics otherwise); entries are only ever written by insert")],
            ensures=[C("typed", f"res == typed_get::<V>(self.mapping@, {KEY})", "C07")],
            rewrites=[("DROPTIMER",)]),
+        Fn(SM, "get_with_proof", impl="SmtMapping", wrap=W, home="C07", implicit_props=("C09", "C07"),
+           requires=[C("valid", f"self.mapping@[{KEY}].len() > 0 ==> V::de(self.mapping@[{KEY}]) is Some", note="tree invariant, as for get")],
+           ensures=[C("typed", f"res.0 == typed_get::<V>(self.mapping@, {KEY})", "C07"),
+                    C("proof", f"res.1.verifies(novasmt::root_of(self.mapping@), {KEY}, self.mapping@[{KEY}])", "C07",
+                      note="the proof handed out verifies against THIS mapping's root, for the hashed encoding of the key asked for, and for the raw value the typed answer was decoded from (the empty string proves absence)")],
+           rewrites=[("DROPTIMER",)]),
+        Fn(SM, "clear", impl="SmtMapping", wrap=W, home="C07", implicit_props=("C09", "C07"),
+           ensures=[C("empty", "forall|k: Seq<u8>| (#[trigger] final(self).mapping@[k]).len() == 0", "C07")]),
+        Fn(SM, "is_empty", impl="SmtMapping", wrap=W, home="C07", implicit_props=("C09", "C07"),
+           ensures=[C("zero_root", "res == (novasmt::root_of(self.mapping@)@ == Seq::new(32, |i: int| 0u8))", "C07")],
+           rewrites=[("SUB", "self.root_hash().0 == [0; 32]", "arr32_eq(self.root_hash().0, zero_root())")]),
         Fn(SM, "insert", impl="SmtMapping", wrap=W, home="C07", implicit_props=("C09", "C07"),
            ensures=[C("raw", f"final(self).mapping@ == old(self).mapping@.insert({KEY}, val.ser())", "C07", "C02"),
                     C("reads_back", f"typed_get::<V>(final(self).mapping@, {KEY}) == Some(val)", "C07")],
@@ -32,6 +43,14 @@ pub open spec fn typed_get<V: StdSer>(raw: IMap<Seq<u8>, Seq<u8>>, k: Seq<u8>) -
            ensures=[C("raw", f"final(self).mapping@ == old(self).mapping@.insert({KEY}, Seq::<u8>::empty())", "C07"),
                     C("gone", f"typed_get::<V>(final(self).mapping@, {KEY}) is None", "C07")],
            rewrites=[("DROPTIMER",), ("SUB", "self.mapping.insert(key.0, Default::default());", "self.mapping.insert(key.0, empty_slice());")]),
+        Fn(SM, "val_iter", impl="SmtMapping", wrap=W, home="C07", implicit_props=("C09", "C07", "C16"),
+           sig_subst=[("impl Iterator<Item = V> + '_", "Vec<V>")],
+           requires=[C("valid", "forall|k: Seq<u8>| (#[trigger] self.mapping@[k]).len() > 0 ==> V::de(self.mapping@[k]) is Some",
+                       note="tree invariant: every non-empty entry decodes (the `unwrap` panics otherwise); entries are only ever written by insert")],
+           ensures=[C("count", "res@.len() == novasmt::entry_count(self.mapping@)", "C07", "C16", note="one value per non-empty entry: what the `pools.val_iter().count() >= 2` assertions of sealing count"),
+                    C("values", "forall|i: int| 0 <= i < res@.len() ==> exists|k: Seq<u8>| self.mapping@[k].len() > 0 && #[trigger] res@[i] == V::de(self.mapping@[k]).unwrap()", "C07")],
+           closures=[Closure(0, "__kv: ([u8; 32], Vec<u8>)", "(r: V)", first_stmt="let (_, v) = __kv;",
+                             requires=[C("dec", "V::de(__kv.1@) is Some")], ensures=[C("val", "r == V::de(__kv.1@).unwrap()", "C07")])]),
         Fn(SM, "root_hash", impl="SmtMapping", wrap=W, home="C07", implicit_props=("C09", "C07"),
            ensures=[C("root", "res == HashVal(novasmt::root_of(self.mapping@))", "C07", "C08")]),
     ],
